@@ -172,6 +172,21 @@ def r3_consistency(w):
     r = RuleResult('C13.R3', 'returned range = range() of the node that is cast and converted; mode from the same cover search; text rendered from that document', floor=7)
     b = _entry_inl(w)
     v = BodyView(w, b)
+    # the covered node is converted through the printer's own entries (the functions that consult the `@typstyle off` mark and dispatch on mode and
+    # kind): a converter of a *part* of a construct called directly (seed C13/5B: `convert_args` for an Args node, which has no math dispatch) prints
+    # the node the way the whole-document printer never would
+    import kindflow as kf
+    for bi, t in b.calls():
+        cb = w.bodies.get(resolved_id(t))
+        if cb is None or cb.crate is not w.core or not kf.default_converter_pred(cb):
+            continue
+        cons = {'fn': b.short, 'converts_with': cb.short}
+        if re.search(r'::(convert_markup|convert_expr|convert_pattern)$', cb.short):
+            r.ok(cons, 'one of the printer\'s entry converters')
+        else:
+            r.bad(cons, 'entry-converter|%s' % cb.short.rsplit('::', 1)[-1],
+                  'range formatting converts the covering node with %s, which is not one of the printer\'s entry converters (convert_markup / convert_expr / convert_pattern): '
+                  'the node is printed without the mode / kind dispatch and the `@typstyle off` check of the whole-document printer' % cb.short, b.loc(t['span']))
     # the covering node: the LinkedNode local whose range() is returned
     ok_sites = []
     for bi, blk in enumerate(b.blocks):
